@@ -70,7 +70,7 @@ def c10(tier):
                   max_total_items=4)
     else:
         key = dict(max_array=3, max_map=3, max_text=2, max_depth=3, max_total_entries=3, max_total_items=3)
-        ks = dict(max_array=3, max_nested_array=2, max_map=2, max_text=1, max_depth=4, max_total_entries=4,
+        ks = dict(max_array=3, max_nested_array=2, max_map=2, max_text=1, max_depth=4, max_total_entries=3,
                   max_total_items=5)
     three = dict(max_array=1, max_map=3, max_text=1, max_depth=2, max_total_entries=3, max_total_items=1, map_lens=[3],
                  map_key_kinds=["Integer", "Text"], map_value_kinds=["Integer", "Bytes"])
@@ -322,7 +322,7 @@ def c01(tier):
             if t == "CoseKdfContext":
                 p.update(max_map=0, max_total_entries=0, max_array=5)
             if t in ("Header", "ProtectedHeader"):
-                p.update(max_text=2)         # two bytes: one multi-byte character reaches the text rules
+                p.update(max_text=4)         # four bytes: multi-byte characters before / after a separator
         else:
             p = dict(max_array=top + 2, max_nested_array=4, max_map=1, max_text=2, max_depth=7, max_total_entries=1,
                      max_total_items={"CoseKdfContext": 15}.get(t, top + 8))
